@@ -32,8 +32,9 @@ B. minimal_medium(model, target, exports=, minimize_components=, open_exchanges=
    exports=False: only positive entries; keys are exchanges                                           [minimal_medium:entries]
    Targets: default 0.1, 0.5*max, max, max+1 (max under the current and under the opened bounds).  A target whose float
    lies within 1e-5 above the exact maximum is not used for the None clause.
-Not covered: infinite exchange bounds (add_mip_obj's big-M is max |bound|), min-direction models ("reach the requested
-objective value" is only unambiguous for max), non-exchange keys in the medium dict.
+   Every third request is repeated on the same model with objective direction "min": minimal_medium constrains the objective
+   EXPRESSION to >= the requested value whatever the direction, so the oracle (is c.v >= target reachable?) is unchanged.
+Not covered: infinite exchange bounds (add_mip_obj's big-M is max |bound|), non-exchange keys in the medium dict.
 """
 import itertools
 import math
@@ -254,9 +255,13 @@ def build_cases(tier, seed):
             keep = flagsets[:]
             rng.shuffle(keep)
             flagsets = keep[:14]
-        for t, exports, mc, oe in flagsets:
+        for j, (t, exports, mc, oe) in enumerate(flagsets):
             cases.append({"task": "minimal_medium", "spec": spec, "target": t, "exports": exports,
                           "minimize_components": mc, "open_exchanges": oe})
+            if j % 3 == 0:
+                # the same request on a model whose objective direction is "min": the documented constraint is `objective
+                # expression >= min_objective_value` whatever the direction, so the oracle (is c.v >= target reachable?) is the same
+                cases.append(dict(cases[-1], direction="min"))
     return cases
 
 
@@ -375,6 +380,8 @@ def check_minimal_medium(case):
     else:
         expect = "none"          # infeasible model: no medium suffices
     model = build(spec)
+    if case.get("direction") == "min":
+        model.objective_direction = "min"
     try:
         res = minimal_medium(model, t, exports=case["exports"], minimize_components=mc, open_exchanges=oe)
     except Exception as e:  # noqa
@@ -466,7 +473,7 @@ def run(tier: str, seed: int) -> dict:
             "demand/sink/id- or SBO-excluded boundary reactions, SBO-only exchanges, 1-3 internal metabolites, 2-5 internal "
             "reactions); A: getter, idempotence and 6 (thorough 12) sub-dictionaries per model with values from "
             "{0, 0.0, 1, 2.5, 5, 10, 1000, 1e-9}; B: minimal_medium x targets {0.1, max/2, max, max+1 under current and opened "
-            "bounds} x exports x minimize_components {False, True, 2|3} x open_exchanges {False, True, 5|50}; distinct = "
+            "bounds} x exports x minimize_components {False, True, 2|3} x open_exchanges {False, True, 5|50}, every third request also with objective direction min; distinct = "
             "distinct (model structure, dictionary | target and flags); non-trivial: every accessor case; minimal_medium "
             "cases whose exact minimum total import is > 0")
     bounds = {"models": n_models, "max_exchanges": 6, "subset_enumeration": "2^n, n <= 6", "seed": seed, "tier": tier,
